@@ -76,7 +76,7 @@ class NodeFileCreateAction(NodeFileAbstractAction, discriminator="node-file-crea
             "file",
             config.folder_name,
             config.file_name,
-            config.verb,
+            config.force,
         ]
 
 
